@@ -454,6 +454,12 @@ def match_contract(ctx, F, b, R, effs, link, calls):
                     test_calls.append(x_[3])
             for l_ in lits:
                 x = l_[1]
+                if l_[0] in ('true', 'false') and x[0] == 'call' and x[1] in ('Iterator::all', 'Iterator::any') and len(x[2]) == 2 and x[2][1][0] == 'fn' \
+                        and x[2][0][0] == 'field' and x[2][0][2] == 'children' and node_key(x[2][0][1]) is not None and s(node_key(x[2][0][1])) == s(p):
+                    # the predicate handed over as a function value: `children.iter().all(Option::is_none)`
+                    want = {('Iterator::all', 'true'): 'is_none', ('Iterator::any', 'false'): 'is_some'}.get((x[1], l_[0]))
+                    if want and x[2][1][1].split('::')[-1] == want and 'Option' in x[2][1][1]:
+                        test_calls.append(x[3])
                 if l_[0] in ('true', 'false') and x[0] == 'call' and x[1] in ('Iterator::all', 'Iterator::any') and len(x[2]) == 2 and x[2][1][0] == 'closure' \
                         and x[2][0][0] == 'field' and x[2][0][2] == 'children' and node_key(x[2][0][1]) is not None and s(node_key(x[2][0][1])) == s(p):
                     cb_ = F.closure(x[2][1][1])
